@@ -195,6 +195,25 @@ def run_history(case):
                     acc.violation("C12.premature_failure", "lost", dict(feats, after=min(len(visited), 3)),
                                   {"remaining": len(left), "reference": len(T), "history": ops[-6:]})
                 break
+    if st == "false" and visited:
+        # requests that FOLLOW a failed one: they fail too (or hand out a valid schedule not seen before), they neither
+        # raise nor resurrect a schedule that was already returned
+        followups = [("find_another_solution", solver.find_another_solution)]
+        mand = [t["name"] for t in spec["tasks"] if not t.get("optional")]
+        if mand:
+            followups.append((f"for_variable({mand[0]}.end)",
+                              lambda: solver.find_another_solution_for_variable(b.tasks[mand[0]]._end)))
+        for name, fn in followups:
+            st2, S2 = step(name + "@after_failure", fn)
+            acc.count(acc.clauses, f"C12.request_after_failure:{'T' if st2 == 'false' else st2}")
+            if st2 == "sol":
+                k2 = hist.key_of_sched(S2)
+                if k2 in visited or k2 not in T:
+                    acc.violation("C12.returned_twice" if k2 in visited else "C12.outside_reference_set",
+                                  "duplicate" if k2 in visited else "admitted-invalid", dict(feats, after_failure=True),
+                                  {"timing": k2, "history": ops[-4:]})
+            if st2 in ("exc", "unknown"):
+                break
     acc.sigs.add(common.h([common.h(spec), mode, case.get("rng")]))
     acc.count(acc.outcomes, f"history_len>={min(len(visited), 5)}")
     acc.sample = {"spec_tasks": spec["tasks"], "reference_size": len(T), "visited": len(visited), "mode": mode,
